@@ -99,3 +99,68 @@ def interleave(rng, seqs):
         if not seqs[i]:
             seqs.pop(i)
     return out
+
+
+# ---------------------------------------------------------------- multi-entry histories
+def headers_in_play(tests, maxk=3):
+    return [b"[%s - %d]" % (t, k) for t in tests for k in range(1, maxk + 1)]
+
+
+def gen_multi_value(r, api, headers, collide, cr=False):
+    """-> op payload dict pieces for one call: ('snap', [values]) / ('json', doc, form) / ('yaml', doc, form)"""
+    if api == "snap":
+        n = r.weighted([(1, 6), (2, 2), (3, 1)])
+        return {"values": [hx(gen_text(r, headers, collide, cr)) for _ in range(n)]}
+    if api == "json":
+        return {"doc": hx(r.choice(JSON_DOCS)), "form": r.choice(["string", "bytes", "value"])}
+    doc = r.choice(YAML_DOCS)
+    if collide and r.chance(1, 3):
+        doc = r.choice(list(headers)) + b"\n"
+    return {"doc": hx(doc), "form": r.choice(["string", "bytes"])}
+
+
+def gen_program(r, ntests=(1, 4), maxcalls=12, apis=("snap", "snap", "json", "yaml"), collide=False, cr=False,
+                handles=(0,), names=None):
+    """A test program: list of (test name, handle, [call payload dicts])."""
+    names = names or TEST_NAMES
+    tests = r.shuffle(names)[: r.range(*ntests)]
+    heads = headers_in_play(tests)
+    prog = []
+    for t in tests:
+        h = r.choice(list(handles))
+        k = r.weighted([(0, 1), (1, 5), (2, 5), (3, 3), (r.range(4, maxcalls), 2)])
+        calls = []
+        for _ in range(k):
+            api = r.choice(list(apis))
+            c = {"op": "match", "api": api, "h": h, "test": hx(t)}
+            c.update(gen_multi_value(r, api, heads, collide, cr))
+            calls.append(c)
+        prog.append((t, h, calls))
+    return prog
+
+
+def mutate_program(r, prog, frac=(1, 3), collide=False, cr=False):
+    """Same program with some call values changed (same names, same call counts)."""
+    heads = headers_in_play([t for t, _, _ in prog])
+    out = []
+    for t, h, calls in prog:
+        nc = []
+        for c in calls:
+            if r.chance(*frac):
+                c2 = {"op": "match", "api": c["api"], "h": h, "test": c["test"]}
+                c2.update(gen_multi_value(r, c["api"], heads, collide, cr))
+                nc.append(c2)
+            else:
+                nc.append(dict(c))
+        out.append((t, h, nc))
+    return out
+
+
+def run_program(r, prog, execs=1, interleave_tests=True):
+    """Op list of one process: each test's calls followed by its EndTest; tests interleaved;
+    `execs` executions (like -count)."""
+    ops = []
+    for _ in range(execs):
+        seqs = [[dict(c) for c in calls] + [op_end(t)] for t, _, calls in prog]
+        ops += interleave(r, seqs) if interleave_tests else [o for s in seqs for o in s]
+    return ops
